@@ -595,6 +595,10 @@ func (vc *VC) isBackEdge(from, to int) bool {
 
 // mergeStates builds the state/pc on entry of a block from forward edges.
 func (vc *VC) mergeEdges(b *ssa.BasicBlock, es []*edge) (string, *State) {
+	return vc.mergeNamed(fmt.Sprintf("pc_b%d", b.Index), es)
+}
+
+func (vc *VC) mergeNamed(name string, es []*edge) (string, *State) {
 	if len(es) == 1 {
 		return es[0].pc, es[0].st.clone()
 	}
@@ -602,7 +606,7 @@ func (vc *VC) mergeEdges(b *ssa.BasicBlock, es []*edge) (string, *State) {
 	for _, e := range es {
 		pcs = append(pcs, e.pc)
 	}
-	pc := vc.define(fmt.Sprintf("pc_b%d", b.Index), "Bool", or(pcs...))
+	pc := vc.define(name, "Bool", or(pcs...))
 	st := &State{heap: map[string]string{}, ghost: map[string]string{}}
 	// heaps
 	names := map[string]bool{}
